@@ -116,7 +116,7 @@ def launched_offsets(req):
     return float(getattr(req, 'offset_db', 0.0) or 0.0)
 
 
-def roadm_event(ev, max_ch=12, offset_of=None):
+def roadm_event(ev, max_ch=12, offset_of=None, reported=True):
     """Recording event of a Roadm crossing -> integer event (or None when the configuration is outside the domain the
     property decides: the egress degree carries settings of two kinds).  offset_of: launched_offsets(req) when the
     crossing happened inside propagate(); None: the offsets are those of the spectral information handed to the ROADM
@@ -144,7 +144,7 @@ def roadm_event(ev, max_ch=12, offset_of=None):
                    'out': udb(pout[k]),
                    # what the element reports about this crossing (must be projected before it is crossed again)
                    'lossRep': udb(el.loss_pch_db[k]), 'poutRep': udb(el.pch_out_dbm[k])})
-    return {'k': 'Roadm', 'uid': el.uid, 'npol': npol, 'node': node, 'deg': deg, 'ch': ch}
+    return {'k': 'Roadm', 'uid': el.uid, 'npol': npol, 'node': node, 'deg': deg, 'rep': 1 if reported else 0, 'ch': ch}
 
 
 # --------------------------------------------------------------------------------------- accumulators (C05 clauses)
@@ -259,7 +259,12 @@ def acc_event(ev, max_ch=12, contrib=None):
     pick = [pairs[k] for k in pick_channels(len(pairs), max_ch)]
     d = contrib.get(ev) if contrib else alone_contribution(ev)
     dpos = {float(f): i for i, f in enumerate(d['frequency'])}
-    e = {'k': 'Acc', 'uid': ev['uid'], 'cls': ev['cls']}
+    e = {'k': 'Acc', 'uid': ev['uid'], 'cls': ev['cls'], 'cfg': 0}
+    if ev['cls'] == 'Roadm':
+        c = roadm_config_contribution(ev['el'], ev['args']['from_degree'], ev['args']['degree'],
+                                      [post['frequency'][j] for _, j in pick])
+        if c is not None:
+            e.update({'cfg': 1, 'pmdCfg': [fs2(x) for x in c['pmd']], 'pdlCfg': [mdb2(x) for x in c['pdl']]})
     ip = [i for i, _ in pick]
     jp = [j for _, j in pick]
     kd = [dpos[float(post['frequency'][j])] for j in jp]
@@ -273,6 +278,28 @@ def acc_event(ev, max_ch=12, contrib=None):
               'pdl0': [mdb2(pre['pdl'][i]) for i in ip], 'pdl1': [mdb2(post['pdl'][j]) for j in jp],
               'dPdl': [mdb2(d['pdl'][k]) for k in kd]})
     return e
+
+
+def roadm_config_contribution(el, from_degree, degree, freqs):
+    """PMD (s) and PDL (dB) the CONFIGURATION gives a ROADM crossing, per channel: the value the impairment profile of the
+    crossed internal path defines for the channel's frequency range where it defines one, else the ROADM-level value -
+    each quantity on its own (configuration lookup only)"""
+    path = next((p for p in el.roadm_paths if p.from_degree == from_degree and p.to_degree == degree), None)
+    if path is None:
+        return None
+    out = {'pmd': [], 'pdl': []}
+    for f in freqs:
+        item = {}
+        for it in path.impairment.impairments:
+            fr = it.get('frequency-range', {})
+            lo, hi = fr.get('lower-frequency'), fr.get('upper-frequency')
+            if lo is None or lo <= f <= hi:
+                item = it
+                break
+        for key, name, fallback in (('pmd', 'roadm-pmd', el.params.pmd), ('pdl', 'roadm-pdl', el.params.pdl)):
+            v = item.get(name)
+            out[key].append(fallback if v is None else v)
+    return out
 
 
 def end_event(si_snapshot, loss_db, max_ch=12):
